@@ -62,10 +62,23 @@ impl<'cmd> Parser<'cmd> {
             }
             err
         }));
-        ok!(self.resolve_pending(matcher));
+        // The value of the last option is only looked at here, the recovery is the same
+        ok!(self.resolve_pending(matcher).map_err(|err| {
+            if self.cmd.is_ignore_errors_set() {
+                #[cfg(feature = "env")]
+                let _ = self.add_env(matcher);
+                let _ = self.add_defaults(matcher);
+            }
+            err
+        }));
 
         #[cfg(feature = "env")]
-        ok!(self.add_env(matcher));
+        ok!(self.add_env(matcher).map_err(|err| {
+            if self.cmd.is_ignore_errors_set() {
+                let _ = self.add_defaults(matcher);
+            }
+            err
+        }));
         ok!(self.add_defaults(matcher));
 
         Validator::new(self.cmd).validate(matcher)
